@@ -272,6 +272,16 @@ def build(tier="quick", seed=0):
 
     add("C01.grouped", th_grouped, lambda w: {"call": "c01_grouped", "args": {"x": w.get("x", 0), "s": w.get("s", ""), "y": w.get("y", 0)}}, wit=lambda m_, p: {"x": model_value(m_, x), "s": model_value(m_, sv), "y": model_value(m_, y)})
 
+    def th_grouped_same_name():
+        # a grouped record whose member type shares its NAME with a type written before (other fields): it comes back with its own member types
+        A = it.call(RD, ["c01/a", [("varint", "n")]], {})
+        A2 = it.call(RD, ["c01/a", [("string", "s"), ("varint", "n")]], {})
+        it.assume(z3.InRe(sv, ENCODABLE))
+        rs = [it.call(A, [], {"n": SInt(x)}), it.call(GR, ["c01/grp", [it.call(A2, [], {"s": SStr(sv), "n": SInt(y)}), it.call(A, [], {"n": 3})]], {}), it.call(A2, [], {"s": "after", "n": 4})]
+        return [deep_obs(it, r) for r in rs], roundtrip(rs)
+
+    add("C01.grouped[a member type shares its name with a type written before]", th_grouped_same_name, lambda w: {"call": "c01_grouped_same_name", "args": {"x": w.get("x", 0), "s": w.get("s", ""), "y": w.get("y", 0)}}, wit=lambda m_, p: {"x": model_value(m_, x), "s": model_value(m_, sv), "y": model_value(m_, y)})
+
     # ---- canary / conformance / bounded
     def run_canary(tier):
         def th():
